@@ -328,4 +328,86 @@ theorem all_equal_dominant (w : Fin n → ℝ) (s : Fin n → ℝ) (hs : ∀ i, 
 theorem colsOf_eq (q : Mat ℝ 4 n) (i : Fin n) : colsOf q i = (Q.ofCol q i).get := by
   funext a; fin_cases a <;> rfl
 
+/-! ### a sigma-point set with negative central weight whose mean is not the centre -/
+
+theorem ofCol_qCols {n : Nat} (f : Fin n → Q ℝ) (i : Fin n) : Q.ofCol (qCols f) i = f i := by
+  ext <;> simp [Q.ofCol, qCols, Q.get]
+
+theorem norm_x_axis (a : ℝ) (ha : 0 ≤ a) : (⟨a, 0, 0⟩ : V3 ℝ).norm = a := by
+  rw [V3.norm_def]
+  simp only
+  rw [show a ^ 2 + (0 : ℝ) ^ 2 + 0 ^ 2 = a ^ 2 by ring]
+  exact Real.sqrt_sq ha
+
+/-- the witness: centre `1`, rotation vectors `0, (3/2,0,0), (-3/2,0,0)`, weights `-1, 1, 1` -/
+noncomputable def rWide : Fin 3 → V3 ℝ := ![⟨0, 0, 0⟩, ⟨3 / 2, 0, 0⟩, (⟨3 / 2, 0, 0⟩ : V3 ℝ).neg]
+def wWide : Fin 3 → ℝ := ![-1, 1, 1]
+
+theorem exp_wide : quatExp (⟨3 / 2, 0, 0⟩ : V3 ℝ) = ⟨Real.cos (3 / 4), Real.sin (3 / 4), 0, 0⟩ := by
+  have hn := norm_x_axis (3 / 2) (by norm_num)
+  rw [quatExp_regular _ (by rw [hn, cutoff_val]; norm_num), hn]
+  ext <;> simp only <;> ring_nf
+
+theorem cos_three_halves_le : Real.cos (3 / 2) ≤ 1 / 2 := by
+  rw [← Real.cos_pi_div_three]
+  apply Real.cos_le_cos_of_nonneg_of_le_pi
+  · linarith [Real.pi_pos]
+  · linarith [Real.pi_gt_three]
+  · linarith [Real.pi_lt_four]
+
+theorem sum_wide0 : quatSum ⟨1, 0, 0, 0⟩ (rWide 0) = ⟨1, 0, 0, 0⟩ := by
+  have h0 : rWide 0 = ⟨0, 0, 0⟩ := rfl
+  have : quatExp (⟨0, 0, 0⟩ : V3 ℝ) = ⟨1, 0, 0, 0⟩ :=
+    quatExp_cut _ (by rw [V3.norm_zero]; exact cutoff_pos.le)
+  rw [h0, quatSum, this, mul_one']
+
+theorem sum_wide1 : quatSum ⟨1, 0, 0, 0⟩ (rWide 1) = ⟨Real.cos (3 / 4), Real.sin (3 / 4), 0, 0⟩ := by
+  have h1 : rWide 1 = ⟨3 / 2, 0, 0⟩ := rfl
+  rw [h1, quatSum, exp_wide, mul_one']
+
+theorem sum_wide2 : quatSum ⟨1, 0, 0, 0⟩ (rWide 2) = ⟨Real.cos (3 / 4), -Real.sin (3 / 4), 0, 0⟩ := by
+  have h2 : rWide 2 = (⟨3 / 2, 0, 0⟩ : V3 ℝ).neg := rfl
+  rw [h2, quatSum, quatExp_neg, exp_wide, mul_one']
+  ext <;> simp [Q.conj]
+
+/-- the quadratic form of the witness matrix -/
+theorem quadform_wide (u : Fin 4 → ℝ) :
+    ∑ i, wWide i * ((quatSum ⟨1, 0, 0, 0⟩ (rWide i)).get ⬝ᵥ u) ^ 2
+      = Real.cos (3 / 2) * u 0 ^ 2 + (1 - Real.cos (3 / 2)) * u 1 ^ 2 := by
+  have hc : Real.cos (3 / 2) = 2 * Real.cos (3 / 4) ^ 2 - 1 := by
+    rw [← Real.cos_two_mul]; norm_num
+  have hs : Real.sin (3 / 4) ^ 2 = 1 - Real.cos (3 / 4) ^ 2 := by
+    linarith [Real.sin_sq_add_cos_sq (3 / 4)]
+  rw [Fin.sum_univ_three, sum_wide0, sum_wide1, sum_wide2, hc]
+  simp only [wWide, dotProduct, Fin.sum_univ_four, Q.get, Matrix.cons_val_zero, Matrix.cons_val_one,
+    Matrix.cons_val]
+  linear_combination (2 * u 1 ^ 2) * hs
+
+/-- `(0,1,0,0)` — a half turn about x away from the centre — satisfies the eigenvector contract for the
+    witness set -/
+theorem wide_contract :
+    IsDominantEigvec (outerSum wWide (fun i => (quatSum ⟨1, 0, 0, 0⟩ (rWide i)).get))
+      (⟨0, 1, 0, 0⟩ : Q ℝ).get := by
+  have hs2 : 2 * Real.sin (3 / 4) ^ 2 = 1 - Real.cos (3 / 2) := by
+    have : Real.cos (3 / 2) = 2 * Real.cos (3 / 4) ^ 2 - 1 := by rw [← Real.cos_two_mul]; norm_num
+    linarith [Real.sin_sq_add_cos_sq (3 / 4)]
+  refine ⟨by rw [get_dot_self]; simp [Q.normSq], 1 - Real.cos (3 / 2), ?_, ?_⟩
+  · funext a
+    rw [outerSum_mulVec, Fin.sum_univ_three, sum_wide0, sum_wide1, sum_wide2]
+    fin_cases a <;>
+      simp [wWide, dotProduct, Fin.sum_univ_four, Q.get] <;>
+      linarith [hs2]
+  · intro mu u hu hMu
+    have hq := outerSum_quadform wWide (fun i => (quatSum ⟨1, 0, 0, 0⟩ (rWide i)).get) u
+    rw [hMu, dotProduct_smul, smul_eq_mul, quadform_wide] at hq
+    have hpos := dot_self_pos hu
+    have huu : u ⬝ᵥ u = u 0 ^ 2 + u 1 ^ 2 + u 2 ^ 2 + u 3 ^ 2 := by
+      simp [dotProduct, Fin.sum_univ_four]; ring
+    have hc := cos_three_halves_le
+    by_contra hlt
+    rw [not_le] at hlt
+    have : (1 - Real.cos (3 / 2)) * (u ⬝ᵥ u) < mu * (u ⬝ᵥ u) := mul_lt_mul_of_pos_right hlt hpos
+    rw [hq, huu] at this
+    nlinarith [sq_nonneg (u 0), sq_nonneg (u 1), sq_nonneg (u 2), sq_nonneg (u 3)]
+
 end BFL.Quat
